@@ -149,10 +149,36 @@ def r_affine(ctx: Ctx, model, tr):
             # alpha-s of the reference against itself: loading = n_ref, alpha = n_ref/alpha_ref  => slope = alpha_ref => area = A_ref
             zero(ctx, "C14.L-affine", fi.where, "alpha-plot|self-reference", d["area"].subs(s_, tr.sym("alpha_ref")) - tr.sym("A_ref"),
                  "alpha-s of the reference isotherm against itself does not return the reference area")
+    # the alpha curve handed to the fit and returned: reference loading / loading at the reducing pressure (interpreted)
     ar = F(f"{CH}.alphas_plots.alpha_s_raw")
-    src = ast.unparse(ar.node)
-    ctx.ob("alpha_curve = reference_loading / alpha_s_point" in src,
-           Finding("C14.L-affine", ar.where, "alpha-plot|alpha-curve", "alpha_curve must be reference_loading / alpha_s_point"),
+    import sympy as _sp
+    from ..domain import make_interp as _mk
+    from ..libsum import Vec as _Vec, install_vec as _iv
+    I = _mk(model)
+    _iv(I)
+    I.sympy_mode = True
+    Sy = lambda nm: _sp.Symbol(nm, positive=True)
+    seen = {}
+
+    def _fls(I, fi_, env, n):
+        seen["curve"], seen["loading"] = env.get("t_points", list(env.values())[0]), env.get("loading")
+        return []
+    I.overrides["pygaps.utilities.math_utilities.find_linear_sections"] = _fls
+    I.overrides[f"{CH}.alphas_plots.find_linear_sections"] = _fls
+    I.ext["numpy.asarray"] = lambda I, a, k, n: a[0] if isinstance(a[0], _Vec) else _Vec(list(a[0]))
+    nref = [Sy(f"nref{i}") for i in range(3)]
+    nl = [Sy(f"n{i}") for i in range(3)]
+    a_pt = Sy("alpha_ref")
+    outs = I.explore(lambda I: I.call_func(ar, [_Vec(list(nl)), _Vec(list(nref)), a_pt, Sy("A_ref"), Sy("rho"), Sy("M")], {}, None))
+    okc = False
+    got = None
+    if len(outs) == 1 and outs[0].kind == "ok" and isinstance(outs[0].value, tuple) and len(outs[0].value) == 2:
+        got = outs[0].value[1]
+        okc = isinstance(got, _Vec) and len(got.items) == 3 and all(_sp.simplify(x - r / a_pt) == 0 for x, r in zip(got.items, nref)) \
+            and isinstance(seen.get("curve"), _Vec) and seen["curve"].items == got.items
+    ctx.ob(okc, Finding("C14.L-affine", ar.where, "alpha-plot|alpha-curve",
+                        f"alpha_s_raw returns / fits the curve {got!r}; required reference_loading / alpha_s_point, the same array for the "
+                        f"section search and the result (outcome {outs[:1] if not okc else 'ok'})"),
            nontrivial_key=("alpha", "curve"))
 
 
